@@ -74,6 +74,7 @@ type schedSpec struct {
 	Nth     int      `json:"nth,omitempty"`   // ... from its nth arrival on (0: always), until nothing else can run
 	Coarse  bool     `json:"coarse,omitempty"` // the hook points inside one step of the specification do not park (replays of TLC behaviours)
 	Who     string   `json:"who,omitempty"`   // hold: this process runs ahead of the others until it is held
+	Until   string   `json:"until,omitempty"` // hold: the held process is let go (and runs next) as soon as another process arrives at this label
 	After   []string `json:"after,omitempty"` // window: the held process is let go (and then runs alone for Burst steps) as soon as a client call of one of these ops has returned (empty: any op)
 	Burst   int      `json:"burst,omitempty"`
 }
@@ -790,6 +791,7 @@ type chooser struct {
 	step   int
 	favor  string
 	who    string
+	until  string
 	label  string
 	nth    int
 	seen   int
@@ -805,7 +807,7 @@ type chooser struct {
 }
 
 func newChooser(s schedSpec, maxStep int) *chooser {
-	c := &chooser{kind: s.Kind, rng: rand.New(rand.NewSource(s.Seed)), replay: s.Choices, prio: map[string]int{}, change: map[int]bool{}, favor: s.Favor, who: s.Who, label: s.Label, nth: s.Nth, held: map[string]bool{}, after: map[string]bool{}, burst: s.Burst, rets0: map[string]int{}}
+	c := &chooser{kind: s.Kind, rng: rand.New(rand.NewSource(s.Seed)), replay: s.Choices, prio: map[string]int{}, change: map[int]bool{}, favor: s.Favor, who: s.Who, until: s.Until, label: s.Label, nth: s.Nth, held: map[string]bool{}, after: map[string]bool{}, burst: s.Burst, rets0: map[string]int{}}
 	for _, a := range s.After {
 		c.after[a] = true
 	}
@@ -897,11 +899,25 @@ func (c *chooser) pick(ps []*gproc, all []*gproc) *gproc {
 		}
 		return ps[c.rng.Intn(len(ps))]
 	}
+	if c.kind == "hold" && c.until != "" && len(c.held) > 0 {
+		// the held process goes on as soon as somebody else has reached the `until` label; nothing is held after that
+		for _, q := range ps {
+			if q.at == c.until && !c.held[q.name] {
+				for _, p := range ps {
+					if c.held[p.name] {
+						c.kind = "random"
+						delete(c.held, p.name)
+						return p
+					}
+				}
+			}
+		}
+	}
 	if c.kind == "hold" {
 		// a process parked at the label stays there while anything else can be released
 		var rest []*gproc
 		for _, p := range ps {
-			if p.at == c.label {
+			if p.at == c.label && (c.who == "" || p.name == c.who) { // (with `who`, only that process is held at the label)
 				if !c.held[p.name] {
 					c.seen++
 					if c.seen >= c.nth {
